@@ -289,7 +289,14 @@ func (c *Client) Resume() error {
 	// Execute post reconnect hook. This can be different from the first connection hook, and not trigger roster retrieval
 	// for example.
 	if c.PostResumeHook != nil {
-		err = c.PostResumeHook()
+		if err = c.PostResumeHook(); err != nil {
+			// The attempt is reported as failed and the caller (the StreamManager) retries on this same
+			// client: no keepalive and no receiver are started for it - they would never be stopped and
+			// would follow the transport to the next connection - and its session is closed instead of
+			// being left open without them.
+			c.closeUnattendedSession()
+			return err
+		}
 	}
 
 	// The new connection needs its own keepalive and receiver go routines, as in Connect.
@@ -297,6 +304,25 @@ func (c *Client) Resume() error {
 	go keepalive(c.transport, c.config.KeepaliveInterval, keepaliveQuit)
 	go c.recv(keepaliveQuit)
 	return err
+}
+
+// closeUnattendedSession ends a session for which no receiver is running: it closes the stream and,
+// so that Disconnect does not sit out ConnectTimeout, reads up to the server's stream close itself.
+func (c *Client) closeUnattendedSession() {
+	transport := c.transport
+	go func() {
+		for {
+			val, err := stanza.NextPacket(transport.GetDecoder())
+			if err != nil {
+				return
+			}
+			if _, ok := val.(stanza.StreamClosePacket); ok {
+				transport.ReceivedStreamClose()
+				return
+			}
+		}
+	}()
+	c.Disconnect()
 }
 
 // Disconnect disconnects the client from the server, sending a stream close nonza and closing the TCP connection.
